@@ -84,8 +84,15 @@ pub fn ident(id: &str) -> RcDoc<'_> {
 }
 
 pub fn quote_ident(id: &str) -> RcDoc<'_> {
+    // NUL is written \u{0}: the \0 of `escape_debug` followed by a digit would read as a legacy octal escape,
+    // which JavaScript modules and TypeScript reject
+    let escaped = id
+        .split('\0')
+        .map(|part| part.escape_debug().to_string())
+        .collect::<Vec<_>>()
+        .join("\\u{0}");
     str("'")
-        .append(format!("{}", id.escape_debug()))
+        .append(escaped)
         .append("'")
         .append(RcDoc::space())
 }
